@@ -20,6 +20,7 @@ import itertools
 import os
 from xml.sax.saxutils import quoteattr
 
+from ..mon import outcome
 from ..ref import refurl
 
 ID = "C18"
@@ -638,14 +639,23 @@ def loader_load(ZConfig, loader, what, entry, spelling):
     return ("ok", v)
 
 
-def check_urls(events, expected_paths):
+def check_urls(events, expected_paths, top_path=None):
     """Every recorded URL is file:/// and decodes to the intended file
     (compared as multisets: the statement fixes where references resolve,
-    not the order in which resources are opened)."""
+    not the order in which resources are opened).  The top resource is "the
+    same resource" whichever way it was named: its URL is one and the same
+    string for all entry points (the percent-quoted file:/// form of the
+    absolute path)."""
     bad = [u for u in events
            if not isinstance(u, str) or u[:8] != "file:///"]
     if bad:
         return "resource URL not in file:/// form: %r" % (bad[:3],)
+    if top_path is not None and events:
+        from urllib.request import pathname2url
+        want = "file://" + pathname2url(top_path)
+        if events[0] != want:
+            return "top resource URL is %r, by the other entry points " \
+                "it is %r" % (events[0], want)
     got = sorted(refurl.unquote(u[7:]) for u in events)
     if got != sorted(expected_paths):
         return "resource URLs name %r, the layout means %r" % (
@@ -673,6 +683,18 @@ def run_layout(ctx, ZConfig, model, tag):
             os.rename(path, target)
             os.symlink(target, path)
         res.count("layouts_with_symlinked_top")
+    if ctx.rng("pad", tag).random() < 0.3:
+        # big resources: comments in front push every file beyond 8 / 16 /
+        # 64 KiB, with two-byte characters across the block boundaries
+        prng = ctx.rng("padsize", tag)
+        for path in lay.cfg_paths:
+            if os.path.isfile(path):
+                outcome.pad_file(path, prng.choice([8192, 16384, 70000]))
+        for path in lay.sch_paths:
+            if os.path.isfile(path):
+                outcome.pad_file(path, prng.choice([8192, 16384, 70000]),
+                                 xml=True)
+        res.count("layouts_with_big_files")
     exp_tree = lay.expected_tree()
     exp_sch = lay.expected_schema()
     case = {"op": "layout", "model": model}
@@ -735,7 +757,7 @@ def run_layout(ctx, ZConfig, model, tag):
                                     problem = ("value tree differs from "
                                                "what the layout denotes")
                             if problem is None:
-                                problem = check_urls(mon.events, files)
+                                problem = check_urls(mon.events, files, path)
                         verdict = "ok" if problem is None else "bad"
                         res.sig("A|%s|%s|%s|%s|%s" % (
                             what, entry, cwdkind, feat, verdict))
